@@ -622,6 +622,11 @@ func FuzzC14(f *testing.F) {
 			f.Add(b)
 		}
 	}
+	for i := 0; i < 600; i++ {
+		if c := rapid.Custom(genCase).Example(i); len(c.Input) <= 1<<16 {
+			f.Add([]byte(c.Input))
+		}
+	}
 	f.Fuzz(hx.FuzzBody("C14", "FuzzC14", fuzzAll))
 }
 
